@@ -10,7 +10,7 @@ class C04(Prop):
     check_module = "Moc.Check.C04Check"
     harness_bin = "core"
     harness_sub = "c04"
-    sizes = {"quick": 600, "thorough": 100000}
+    sizes = {"quick": 1000, "thorough": 100000}
     gen_names = ("g_event_type", "g_created_key_lt", "g_add_keep_old", "g_over_cap", "g_is_kind5", "g_del_is_kind5",
                  "g_del_other_author", "g_k5_tag_short", "g_k5_tag_name", "g_full_scan", "g_index_over_limit",
                  "event_cache.go", "g_done", "g_since_reject", "g_until_reject")
